@@ -378,9 +378,10 @@ fn drive<T: Transport>(t: T, p: &VsParams, rng: &mut SmallRng) -> String {
                 let mut pk = Pkt { src_cid: tgt_peer.0, src_port: tgt_peer.1, dst_cid: GUEST_CID, dst_port: tgt_lport, ty: 1, dynamic: true, ..Default::default() };
                 match rng.gen_range(0..20) {
                     0 | 1 => {
-                        // a new connection request - only for a tuple the peer is not already talking on
+                        // a connection request: usually for a tuple the peer is not already talking
+                        // on, sometimes a duplicate for an existing connection
                         if known.contains(&(tgt_peer, tgt_lport)) {
-                            pk.op = 6;
+                            pk.op = if rng.gen_bool(0.5) { 1 } else { 6 };
                         } else {
                             pk.op = 1;
                             with_engine(|e| {
